@@ -222,5 +222,5 @@ func forkHistory(rng *rand.Rand, out *Out) {
 			it = append(it, Lst(inbox[a]...))
 		}
 	}
-	out.Case("c04_hist", Tup(true, events, at), Tup(codes, rt, it), "fork-insertchain")
+	out.Case("c04_hist", Tup(U64(0), events, at), Tup(codes, rt, it), "fork-insertchain")
 }
